@@ -48,6 +48,11 @@ type Stream struct {
 	Corpus func() []Case
 	// Replay re-executes one request line on the implementation and returns its canonical reply.
 	Replay func(req string) string
+	// SpecProperty, if set, says that the model side of this stream is the REFERENCE SEMANTICS of that
+	// property (not the executable model of the code): a disagreement is then itself a failing input of
+	// the property and is reported as a violation (witness SpecWitness, default "<stream>:spec-disagrees").
+	SpecProperty string
+	SpecWitness  func(c Case, modelReply string) string
 }
 
 // NoModel disables the model comparison (monitors only).
@@ -138,6 +143,17 @@ func Exec(s *Stream, seed uint64, n int, shards int) *Result {
 				res.NDisagreements++
 				if len(res.Disagreements) < 20 {
 					res.Disagreements = append(res.Disagreements, Disagreement{Req: c.Req, Impl: c.Impl, Model: modelReply})
+				}
+				if s.SpecProperty != "" {
+					w := s.Name + ":spec-disagrees"
+					if s.SpecWitness != nil {
+						w = s.SpecWitness(c, modelReply)
+					}
+					res.NViolations++
+					if len(res.Violations) < 50 {
+						res.Violations = append(res.Violations, Violation{Property: s.SpecProperty, What: "the implementation's answer differs from the reference semantics (" + s.Name + ")",
+							Witness: w, Req: c.Req, Detail: "impl: " + c.Impl + "\nspec: " + modelReply})
+					}
 				}
 			}
 		}
